@@ -139,21 +139,69 @@ var c04Entries = func() []c04Entry {
 	helper("JSONGetIRI", func(v *fastjson.Value, p string) interface{} { return ap.JSONGetIRI(v, p) })
 	helper("JSONGetActorEndpoints", func(v *fastjson.Value, p string) interface{} { return ap.JSONGetActorEndpoints(v, p) })
 	helper("GetAPSource", func(v *fastjson.Value, _ string) interface{} { return ap.GetAPSource(v) })
-	helper("JSONLoadObject", func(v *fastjson.Value, _ string) interface{} { x := &ap.Object{}; _ = ap.JSONLoadObject(v, x); return x })
-	helper("JSONLoadIntransitiveActivity", func(v *fastjson.Value, _ string) interface{} { x := &ap.IntransitiveActivity{}; _ = ap.JSONLoadIntransitiveActivity(v, x); return x })
-	helper("JSONLoadActivity", func(v *fastjson.Value, _ string) interface{} { x := &ap.Activity{}; _ = ap.JSONLoadActivity(v, x); return x })
-	helper("JSONLoadQuestion", func(v *fastjson.Value, _ string) interface{} { x := &ap.Question{}; _ = ap.JSONLoadQuestion(v, x); return x })
+	helper("JSONLoadObject", func(v *fastjson.Value, _ string) interface{} {
+		x := &ap.Object{}
+		_ = ap.JSONLoadObject(v, x)
+		return x
+	})
+	helper("JSONLoadIntransitiveActivity", func(v *fastjson.Value, _ string) interface{} {
+		x := &ap.IntransitiveActivity{}
+		_ = ap.JSONLoadIntransitiveActivity(v, x)
+		return x
+	})
+	helper("JSONLoadActivity", func(v *fastjson.Value, _ string) interface{} {
+		x := &ap.Activity{}
+		_ = ap.JSONLoadActivity(v, x)
+		return x
+	})
+	helper("JSONLoadQuestion", func(v *fastjson.Value, _ string) interface{} {
+		x := &ap.Question{}
+		_ = ap.JSONLoadQuestion(v, x)
+		return x
+	})
 	helper("JSONLoadActor", func(v *fastjson.Value, _ string) interface{} { x := &ap.Actor{}; _ = ap.JSONLoadActor(v, x); return x })
-	helper("JSONLoadCollection", func(v *fastjson.Value, _ string) interface{} { x := &ap.Collection{}; _ = ap.JSONLoadCollection(v, x); return x })
-	helper("JSONLoadCollectionPage", func(v *fastjson.Value, _ string) interface{} { x := &ap.CollectionPage{}; _ = ap.JSONLoadCollectionPage(v, x); return x })
-	helper("JSONLoadOrderedCollection", func(v *fastjson.Value, _ string) interface{} { x := &ap.OrderedCollection{}; _ = ap.JSONLoadOrderedCollection(v, x); return x })
-	helper("JSONLoadOrderedCollectionPage", func(v *fastjson.Value, _ string) interface{} { x := &ap.OrderedCollectionPage{}; _ = ap.JSONLoadOrderedCollectionPage(v, x); return x })
+	helper("JSONLoadCollection", func(v *fastjson.Value, _ string) interface{} {
+		x := &ap.Collection{}
+		_ = ap.JSONLoadCollection(v, x)
+		return x
+	})
+	helper("JSONLoadCollectionPage", func(v *fastjson.Value, _ string) interface{} {
+		x := &ap.CollectionPage{}
+		_ = ap.JSONLoadCollectionPage(v, x)
+		return x
+	})
+	helper("JSONLoadOrderedCollection", func(v *fastjson.Value, _ string) interface{} {
+		x := &ap.OrderedCollection{}
+		_ = ap.JSONLoadOrderedCollection(v, x)
+		return x
+	})
+	helper("JSONLoadOrderedCollectionPage", func(v *fastjson.Value, _ string) interface{} {
+		x := &ap.OrderedCollectionPage{}
+		_ = ap.JSONLoadOrderedCollectionPage(v, x)
+		return x
+	})
 	helper("JSONLoadPlace", func(v *fastjson.Value, _ string) interface{} { x := &ap.Place{}; _ = ap.JSONLoadPlace(v, x); return x })
-	helper("JSONLoadProfile", func(v *fastjson.Value, _ string) interface{} { x := &ap.Profile{}; _ = ap.JSONLoadProfile(v, x); return x })
-	helper("JSONLoadRelationship", func(v *fastjson.Value, _ string) interface{} { x := &ap.Relationship{}; _ = ap.JSONLoadRelationship(v, x); return x })
-	helper("JSONLoadTombstone", func(v *fastjson.Value, _ string) interface{} { x := &ap.Tombstone{}; _ = ap.JSONLoadTombstone(v, x); return x })
+	helper("JSONLoadProfile", func(v *fastjson.Value, _ string) interface{} {
+		x := &ap.Profile{}
+		_ = ap.JSONLoadProfile(v, x)
+		return x
+	})
+	helper("JSONLoadRelationship", func(v *fastjson.Value, _ string) interface{} {
+		x := &ap.Relationship{}
+		_ = ap.JSONLoadRelationship(v, x)
+		return x
+	})
+	helper("JSONLoadTombstone", func(v *fastjson.Value, _ string) interface{} {
+		x := &ap.Tombstone{}
+		_ = ap.JSONLoadTombstone(v, x)
+		return x
+	})
 	helper("JSONLoadLink", func(v *fastjson.Value, _ string) interface{} { x := &ap.Link{}; _ = ap.JSONLoadLink(v, x); return x })
-	helper("JSONLoadPublicKey", func(v *fastjson.Value, _ string) interface{} { x := &ap.PublicKey{}; _ = ap.JSONLoadPublicKey(v, x); return x })
+	helper("JSONLoadPublicKey", func(v *fastjson.Value, _ string) interface{} {
+		x := &ap.PublicKey{}
+		_ = ap.JSONLoadPublicKey(v, x)
+		return x
+	})
 	return out
 }()
 
